@@ -147,7 +147,7 @@ func init() {
 							if _, direct := st.Addr.(*ssa.FieldAddr); direct {
 								// h.a = <expr>: content-preserving only if <expr> is xslices.Grow/Shrink(h.a, n)
 								if call, ok := st.Val.(*ssa.Call); ok {
-									if cal := staticCallee(&call.Call); cal != nil && cal.Pkg != nil && strings.HasSuffix(cal.Pkg.Pkg.Path(), "/xslices") && (cal.Name() == "Grow" || cal.Name() == "Shrink") {
+									if cal := staticCallee(&call.Call); cal != nil && cal.Pkg != nil && strings.HasSuffix(cal.Pkg.Pkg.Path(), "/xslices") && (fname(cal) == "Grow" || fname(cal) == "Shrink") {
 										return false, ""
 									}
 								}
@@ -280,7 +280,7 @@ func ruleC15CheckFirst(c *Ctx, r *R) {
 				if x.Call.IsInvoke() && x.Call.Method.Name() == "Next" {
 					what = "pull from the snapshot iterator"
 				} else if cal := staticCallee(&x.Call); cal != nil && cal.Signature.Recv() != nil && isNamedType(cal.Signature.Recv().Type(), sp.contPkg, sp.contType) {
-					what = "call of " + sp.contType + "." + cal.Name()
+					what = "call of " + sp.contType + "." + fname(cal)
 				}
 			}
 			if what == "" {
@@ -339,7 +339,7 @@ func ruleC15Wrappers(c *Ctx, r *R) {
 			calls := false
 			instrs(fn, func(b *ssa.BasicBlock, i int, in ssa.Instruction) {
 				if call, ok := in.(*ssa.Call); ok {
-					if cal := staticCallee(&call.Call); cal != nil && cal.Name() == "Iterate" && cal.Pkg != nil && strings.HasSuffix(cal.Pkg.Pkg.Path(), "internal/heap") {
+					if cal := staticCallee(&call.Call); cal != nil && fname(cal) == "Iterate" && cal.Pkg != nil && strings.HasSuffix(cal.Pkg.Pkg.Path(), "internal/heap") {
 						calls = true
 					}
 				}
@@ -369,7 +369,7 @@ var _ = late(func() {
 			isBacking := func(v ssa.Value) bool {
 				v = resolveVal(v)
 				if call, ok := v.(*ssa.Call); ok && len(call.Call.Args) >= 1 {
-					if cal := staticCallee(&call.Call); cal != nil && cal.Name() == "Slice" {
+					if cal := staticCallee(&call.Call); cal != nil && fname(cal) == "Slice" {
 						v = resolveVal(call.Call.Args[0])
 					}
 				}
